@@ -42,6 +42,8 @@ import (
 	"hash"
 	"io"
 	"os"
+	"runtime"
+	"runtime/debug"
 	"sort"
 	"strings"
 	"sync"
@@ -557,6 +559,12 @@ func (s verifC03Site) apply(f *verifC03Fixture, be *verifC03BE) {
 func TestVerif_C03(t *testing.T) {
 	r := vh.Start(t, "C03")
 	defer r.Finish()
+	// Every state allocates 2 x 4 MiB stream buffers (ReadPacks workers) and forces a GC
+	// (LoadIndex).  A never-touched ballast raises the heap goal so that the runtime keeps
+	// those spans mapped instead of returning and re-faulting them ~10^4 times.
+	ballast := make([]byte, 512<<20)
+	defer runtime.KeepAlive(ballast)
+	defer debug.SetGCPercent(debug.SetGCPercent(400))
 	r.Rule("every stored file of small repositories written by the real code x {flip bit 0, flip bit 7 of every byte; truncate at every length; delete}; each state = check --read-data (checker driven as cmd_check.go does) + LoadBlob of every blob + walk of every snapshot; non-trivial = the damaged file is one a snapshot depends on")
 	r.Assume("the fixture uses forged trees written through SaveBlob/TreeWriter/SaveSnapshot (not the archiver) and a deterministic crypto/rand stream so that all shards enumerate the same repository", "the backend is an in-memory read-only overlay; a range request beyond the end of a truncated file fails like the mem/local backends do")
 
